@@ -264,7 +264,7 @@ func TestVerifC19(t *testing.T) {
 
 	// ---- honest differences of growing size (decodable up to a few hundred; beyond: ErrDecodeNotPossible)
 	seed := uint64(c19Seed())
-	sizes := []int{0, 1, 2, 3, 10, 50, 200, 400, 600, 700, 900, 1500}
+	sizes := []int{0, 1, 2, 3, 10, 50, 200, 400, 600, 640, 660, 680, 700, 720, 740, 760, 800, 900, 1500}
 	if !c19Thorough() {
 		sizes = []int{0, 1, 2, 3, 10, 50, 200, 500, 800}
 	}
@@ -350,6 +350,56 @@ func TestVerifC19(t *testing.T) {
 			}
 		}
 		c19RunSet(o, c19Table{N: N}, peer, "adversarial:partial-placement")
+	}
+
+	// ---- worst case for the number of passes: a descending dependency chain. Key j sits in bucket p_j together with key j-1
+	// (p_1 > p_2 > …), every other bucket is unpeelable garbage: each pass peels exactly one key, because the bucket that
+	// becomes pure lies below the current position. Decode ends with ErrDecodeNotPossible after m+1 passes.
+	chainLens := []int{12}
+	if c19Thorough() {
+		chainLens = []int{12, 100, 300}
+	}
+	for _, mlen := range chainLens {
+		z := c19Zero(N)
+		inP := map[uint32]bool{}
+		for j := 0; j <= mlen; j++ {
+			inP[uint32(1000-j)] = true
+		}
+		var keys []string
+		ctr := uint64(0)
+		for j := 0; j < mlen; j++ {
+			pj, pn := uint32(1000-j), uint32(1000-j-1)
+			for {
+				k := c19Key(seed+31337, ctr)
+				ctr++
+				hasJ, hasN, clean := false, false, true
+				for _, h := range z.bucketIndices(z.hashKey(k)) {
+					switch {
+					case h == pj:
+						hasJ = true
+					case h == pn:
+						hasN = true
+					case inP[h]:
+						clean = false
+					}
+				}
+				if hasJ && hasN && clean {
+					keys = append(keys, hex.EncodeToString(k[:]))
+					break
+				}
+			}
+		}
+		peer := c19Table{N: N, Keys: keys}
+		var g hash.SHA256Hash
+		g[0] = 0xaa
+		for b := 0; b < N; b++ {
+			// (the bucket below the last link holds only the last key: garbage too, or the chain would unravel upwards in one pass)
+			if !inP[uint32(b)] || b == 1000-mlen {
+				peer.Patch = append(peer.Patch, c19Patch{b, 1000000, 12345, g})
+			}
+		}
+		// the difference own − peer has the chain with negative counts (keys "missing" here)
+		c19RunSet(o, c19Table{N: N}, peer, fmt.Sprintf("adversarial:descending-chain-%d", mlen))
 	}
 
 	// ---- raw byte strings through UnmarshalBinary(+Decode): every small length, random content
